@@ -69,6 +69,9 @@ func verifH13(checkClass bool, id string) {
 	w.begin(fs_db.IsoLevelReadUncommitted)
 	w.begin(fs_db.IsoLevelReadCommitted)
 	var h fs_db.Tx
+	// the victim's own read may be the last use of the transaction registry before it ends, and
+	// nobody else may consult the registry before the late call
+	victimReadsLast := false
 	how := nd.Choice("ended-how", 4) // 0 commit, 1 rollback, 2 commit failing with a conflict, 3 never begun
 	if how == 3 {
 		h = inlinedb.VerifTx(w.d, "99999999-9999-4999-8999-999999999999")
@@ -89,6 +92,15 @@ func verifH13(checkClass bool, id string) {
 				nd.Assume(false) // a conflict needs a write
 			}
 		}
+		if victimReadsLast = nd.Choice("victim-reads-last", 2) == 1; victimReadsLast {
+			exp, ok := w.visible(v, "a")
+			got, err := h.Get(ctx, "a")
+			if ok {
+				nd.Assert(err == nil && nd.EqBytes(got, exp.val), id+".victim-read")
+			} else {
+				nd.Assert(isNotFound(err), id+".victim-read")
+			}
+		}
 		switch how {
 		case 0:
 			w.commit(v, "H13")
@@ -100,7 +112,9 @@ func verifH13(checkClass bool, id string) {
 			nd.Reach(id+".conflict-end")
 		}
 	}
-	w.checkReads(id+".before")
+	if !victimReadsLast {
+		w.checkReads(id + ".before")
+	}
 	kind := nd.Choice("late-op", 9)
 	err := lateOp(h, kind, "a")
 	if checkClass {
